@@ -115,6 +115,130 @@ theorem C01_fec_sender_genuine {C : CodecNew} (hC : Lawful C) (d p : Nat) (enc0 
     | cons op rest ih => intro f h; exact ih _ (fecStep_encOk hC h op).1
   exact encOk_genuine (h ops _ (encOk_fresh hnewE x he hh)) hwrap
 
+/-! ## cipher + FEC together -/
+
+/-- operations of the two-session system with FEC and a cipher on the path `A → B` -/
+inductive C01_FCOp where
+  | a (op : FecOp)
+  | b (op : FecOp)
+  /-- the network hands `B.packetInput` an arbitrary (ciphertext) datagram -/
+  | net (data : Bytes) (now : U32) (gap : Int)
+
+/-- `B`'s receive path: `SessIn.sessionPacketInput` (decrypt, verify, size check — the gate of C06) in
+front of `kcpInput` with FEC (`Model/SessFec.lean`).  `A`'s `wire` holds the plaintext frames (FEC
+packets); what travels is their encryption (`Wire.cryptFrame` under `enc`, resp. `nonce ‖ Seal`). -/
+def C01_fcstep (C : CodecNew) (c : SessIn.Cipher) (s : FecSys) : C01_FCOp → FecSys
+  | .a op => { s with A := fecStep C s.A op }
+  | .b op => if isFecInput op then s else { s with B := fecStep C s.B op }
+  | .net data now gap =>
+    { s with B := (SessIn.sessionPacketInput c (fun x p => fecStep C x (.input p now gap)) s.B data).st }
+
+def C01_fcrun (C : CodecNew) (c : SessIn.Cipher) (s : FecSys) (ops : List C01_FCOp) : FecSys :=
+  ops.foldl (C01_fcstep C c) s
+
+/-- every datagram the network delivers is, at the time of delivery, a genuine ciphertext of a frame
+`A` has put on the wire so far, or a corruption the integrity check catches -/
+def C01_FCRunOk (C : CodecNew) (c : SessIn.Cipher) (Ok : List Bytes → Bytes → Prop) : FecSys → List C01_FCOp → Prop
+  | _, [] => True
+  | s, .net data now gap :: rest =>
+    Ok s.A.wire data ∧ C01_FCRunOk C c Ok (C01_fcstep C c s (.net data now gap)) rest
+  | s, op :: rest => C01_FCRunOk C c Ok (C01_fcstep C c s op) rest
+
+/-- behind a sound gate, a run with cipher and FEC under the corrupting network is a run of the FEC
+system under the drop / duplicate / reorder network -/
+theorem C01_fcrun_is_fec (C : CodecNew) (c : SessIn.Cipher) (Ok : List Bytes → Bytes → Prop)
+    (hg : C01_GateSound c Ok) :
+    ∀ (ops : List C01_FCOp) (s : FecSys), C01_FCRunOk C c Ok s ops →
+      ∃ plain : List FSOp, C01_fcrun C c s ops = fsrun C s plain := by
+  intro ops
+  induction ops with
+  | nil => intro s _; exact ⟨[], rfl⟩
+  | cons op rest ih =>
+    intro s hok
+    cases op with
+    | a op =>
+      obtain ⟨pl, h⟩ := ih (C01_fcstep C c s (.a op)) hok
+      exact ⟨.a op :: pl, h⟩
+    | b op =>
+      obtain ⟨pl, h⟩ := ih (C01_fcstep C c s (.b op)) hok
+      exact ⟨.b op :: pl, h⟩
+    | net data now gap =>
+      obtain ⟨hd, hrest⟩ := hok
+      obtain ⟨pl, h⟩ := ih (C01_fcstep C c s (.net data now gap)) hrest
+      rcases hg FecG (fun x p => fecStep C x (.input p now gap)) s.B s.A.wire data hd with
+        ⟨_, h2⟩ | ⟨f, hf, _, h2⟩
+      · refine ⟨pl, ?_⟩
+        show C01_fcrun C c (C01_fcstep C c s (.net data now gap)) rest = _
+        rw [h]
+        have : C01_fcstep C c s (.net data now gap) = s := by
+          show { s with B := _ } = s
+          rw [h2]
+        rw [this]
+      · obtain ⟨i, hi⟩ := List.getElem?_of_mem hf
+        refine ⟨.dlv i now gap :: pl, ?_⟩
+        show C01_fcrun C c (C01_fcstep C c s (.net data now gap)) rest = fsrun C (fsstep C s (.dlv i now gap)) pl
+        rw [h]
+        have : C01_fcstep C c s (.net data now gap) = fsstep C s (.dlv i now gap) := by
+          show { s with B := _ } = _
+          rw [h2]
+          simp [fsstep, hi]
+        rw [this]
+
+/-- **`C01_session_full`: cipher + FEC.**  Two sessions with FEC `d/p` at both ends and a cipher whose
+gate is sound against the network `Ok` (`C01_gate_step`: CRC-style ciphers; `C01_gate_step_aead`:
+AEAD).  The network may drop, duplicate, reorder, delay, replay and CORRUPT ciphertext datagrams (any
+corruption the integrity check catches); what passes the gate are exactly plaintext frames `A` emitted,
+which are the FEC packets, data or parity.  Hypotheses otherwise as `C01_session_fec`.  Then everything
+`B.Read` has returned is a prefix of everything `A.WriteBuffers` has accepted. -/
+theorem C01_session_full {C : CodecNew} (hC : Lawful C) (c : SessIn.Cipher) (Ok : List Bytes → Bytes → Prop)
+    (hg : C01_GateSound c Ok) (d p : Nat) (enc0 : Encoder) (dec0 : Decoder)
+    (hnewE : Encoder.new C d p 0 = some enc0) (hnewD : Decoder.new C d p = some dec0)
+    (xA xB : SessFec) (hA : Fresh xA.s.k) (hB : Fresh xB.s.k) (hbB : xB.s.bufptr = [])
+    (heA : xA.enc = some enc0) (hhA : xA.headerSize = fecHeaderSizePlus2) (hdB : xB.dec = some dec0)
+    (hsn : xB.s.k.rcv_nxt = xA.s.k.snd_nxt) (hm : 0 < xA.s.k.mss.toNat) (ops : List C01_FCOp)
+    (hnet : C01_FCRunOk C c Ok ⟨{ x := xA }, { x := xB }⟩ ops)
+    (hwrap : NoWrap d p (C01_fcrun C c ⟨{ x := xA }, { x := xB }⟩ ops).A.cwire)
+    (hL : (C01_fcrun C c ⟨{ x := xA }, { x := xB }⟩ ops).A.log.length < 2 ^ 32) :
+    (C01_fcrun C c ⟨{ x := xA }, { x := xB }⟩ ops).B.rd <+: (C01_fcrun C c ⟨{ x := xA }, { x := xB }⟩ ops).A.wr := by
+  obtain ⟨plain, h⟩ := C01_fcrun_is_fec C c Ok hg ops _ hnet
+  rw [h] at hwrap hL ⊢
+  exact C01_session_fec hC d p enc0 dec0 hnewE hnewD xA xB hA hB hbB heA hhA hdB hsn hm plain hwrap hL
+
+/-- `C01_session_full` for CFB with any block cipher (aes, blowfish, twofish, cast5, 3des, tea, xtea, sm4) -/
+theorem C01_session_full_cfb {C : CodecNew} (hC : Lawful C) (bs : Nat) (hbs : bs = 8 ∨ bs = 16) (E : Bytes → Bytes)
+    (hE : BlockFn bs E) (crc : Bytes → BitVec 32) (d p : Nat) (enc0 : Encoder) (dec0 : Decoder)
+    (hnewE : Encoder.new C d p 0 = some enc0) (hnewD : Decoder.new C d p = some dec0)
+    (xA xB : SessFec) (hA : Fresh xA.s.k) (hB : Fresh xB.s.k) (hbB : xB.s.bufptr = [])
+    (heA : xA.enc = some enc0) (hhA : xA.headerSize = fecHeaderSizePlus2) (hdB : xB.dec = some dec0)
+    (hsn : xB.s.k.rcv_nxt = xA.s.k.snd_nxt) (hm : 0 < xA.s.k.mss.toNat) (ops : List C01_FCOp)
+    (hnet : C01_FCRunOk C { kind := .block, dec := Cfb.cfbDec E bs (iv bs), crc := crc, aopen := fun _ _ => none }
+      (C01_NetDatagramOk { kind := .block, dec := Cfb.cfbDec E bs (iv bs), crc := crc, aopen := fun _ _ => none }
+        (Cfb.cfbEnc E bs (iv bs))) ⟨{ x := xA }, { x := xB }⟩ ops)
+    (hwrap : NoWrap d p (C01_fcrun C { kind := .block, dec := Cfb.cfbDec E bs (iv bs), crc := crc, aopen := fun _ _ => none }
+      ⟨{ x := xA }, { x := xB }⟩ ops).A.cwire)
+    (hL : (C01_fcrun C { kind := .block, dec := Cfb.cfbDec E bs (iv bs), crc := crc, aopen := fun _ _ => none }
+      ⟨{ x := xA }, { x := xB }⟩ ops).A.log.length < 2 ^ 32) :
+    (C01_fcrun C { kind := .block, dec := Cfb.cfbDec E bs (iv bs), crc := crc, aopen := fun _ _ => none }
+        ⟨{ x := xA }, { x := xB }⟩ ops).B.rd <+:
+      (C01_fcrun C { kind := .block, dec := Cfb.cfbDec E bs (iv bs), crc := crc, aopen := fun _ _ => none }
+        ⟨{ x := xA }, { x := xB }⟩ ops).A.wr :=
+  C01_session_full hC _ _ (C01_gate_step _ _ (C01_cfb_laws bs hbs E hE crc)) d p enc0 dec0 hnewE hnewD
+    xA xB hA hB hbB heA hhA hdB hsn hm ops hnet hwrap hL
+
+/-- `C01_session_full` for an AEAD (aes-gcm …), given the two laws of the primitive -/
+theorem C01_session_full_aead {C : CodecNew} (hC : Lawful C) (c : SessIn.Cipher) (ns ov : Nat)
+    (aseal : Bytes → Bytes → Bytes) (hc : C01_AeadLaws c ns ov aseal) (d p : Nat) (enc0 : Encoder) (dec0 : Decoder)
+    (hnewE : Encoder.new C d p 0 = some enc0) (hnewD : Decoder.new C d p = some dec0)
+    (xA xB : SessFec) (hA : Fresh xA.s.k) (hB : Fresh xB.s.k) (hbB : xB.s.bufptr = [])
+    (heA : xA.enc = some enc0) (hhA : xA.headerSize = fecHeaderSizePlus2) (hdB : xB.dec = some dec0)
+    (hsn : xB.s.k.rcv_nxt = xA.s.k.snd_nxt) (hm : 0 < xA.s.k.mss.toNat) (ops : List C01_FCOp)
+    (hnet : C01_FCRunOk C c (C01_NetDatagramOkAead c ns ov aseal) ⟨{ x := xA }, { x := xB }⟩ ops)
+    (hwrap : NoWrap d p (C01_fcrun C c ⟨{ x := xA }, { x := xB }⟩ ops).A.cwire)
+    (hL : (C01_fcrun C c ⟨{ x := xA }, { x := xB }⟩ ops).A.log.length < 2 ^ 32) :
+    (C01_fcrun C c ⟨{ x := xA }, { x := xB }⟩ ops).B.rd <+: (C01_fcrun C c ⟨{ x := xA }, { x := xB }⟩ ops).A.wr :=
+  C01_session_full hC c _ (C01_gate_step_aead c ns ov aseal hc) d p enc0 dec0 hnewE hnewD
+    xA xB hA hB hbB heA hhA hdB hsn hm ops hnet hwrap hL
+
 /-! ### non-vacuity: recovery through parity in the model (executable GF(2^8) code) -/
 
 /-- two default sessions with FEC 2/1; `A` writes two messages (two data packets and, the gap being
